@@ -167,6 +167,18 @@ def discharge_lib(site, bs):
                     ok = False
             if ok and some and acc_none_edge_dominates(v, bs, bb):
                 return "C12.TUPLEOPT", "None is only assigned after the accumulator became Some; unwrap sits on the accumulator's None edge"
+    # C12.TUPLEOPT, path-sensitive form: on every path to this unwrap its argument is known to be Some (helpers expanded;
+    # the path on which an element failed has the accumulator Some and leaves before any unwrap)
+    if nm == "std::option::Option::unwrap" and kind == "tuple":
+        import inline
+        import varpaths
+        ib = inline.inlined(b.crate, b)
+        iv = View(ib)
+        at = t.get("at")
+        cands = [x for x in iv.reach if iv.blocks[x]["term"]["k"] == "call" and iv.blocks[x]["term"].get("at") == at and
+                 iv.callee(x) is not None and callee_name(iv.callee(x)) == "std::option::Option::unwrap"]
+        if cands and all(varpaths.always_variant(iv, x) is True for x in cands):
+            return "C12.TUPLEOPT", "on every path that reaches it the element is Some (a failed element makes the accumulator Some, and that path returns Err before any unwrap)"
     # C12.ARRAY: panic on the Err edge of Vec<T>::try_into::<[T; N]>
     if site.kind == "panic" and kind == "array":
         for x in v.reach:
